@@ -915,6 +915,10 @@ func (e *Exec) evalCall(ctx *evalCtx, x *ECall, want types.Type) Val {
 			out.T = append(out.T, tIte(c.T[0], a.T[i], b.T[i]))
 		}
 		return out
+	case "mod":
+		// mod(a, b) on mathematical integers (SMT-LIB mod: result in [0, |b|))
+		a, b := arg(0, ghostIntT), arg(1, ghostIntT)
+		return Val{T: []string{app("mod", a.T[0], b.T[0])}, Typ: ghostIntT}
 	case "mul128ok":
 		// mul128ok(a, b): the signed 64-bit product a*b does not overflow
 		a, b := arg(0, types.Typ[types.Int64]), arg(1, types.Typ[types.Int64])
